@@ -277,6 +277,21 @@ def clause5(P, res):
         res.violated(rid, "context-sites", f"expected >= 4 JanitorContext constructions, found {n}")
 
 
+def clause6(P, res):
+    """The reason `Expired` is truthful (seed C16-tti-sweep-samples-under-read-lock): the same instances as C12-2 and C12-8, judged for the listener."""
+    from rules import c12
+    rid = "C16-6"
+    sub = Result("C16")
+    c12.clause2(P, sub)
+    c12.clause8(P, sub)
+    res.rule(rid, "an `Expired` notification is truthful: every site that builds EvictionReason::Expired is control-dependent on is_expired() of the entry that was removed, "
+                  "and that test and the removal share one acquisition of the shard's write lock (otherwise a value written in between is removed and reported Expired "
+                  "while the value that did expire is never reported)")
+    for i in sub.instances:
+        tail = i.key.split(":", 2)[2]
+        res.add(rid, tail, i.status, i.detail, i.witness, i.nontrivial, i.obligations, i.where)
+
+
 def run(P, ctx):
     res = Result("C16")
     res.extra["explanation"] = "Shapes of listener notification sites in fibre_cache: tied to a successful removal, right reason, exactly one per removal."
@@ -285,4 +300,5 @@ def run(P, ctx):
     clause3(P, res)
     clause4(P, res)
     clause5(P, res)
+    clause6(P, res)
     return res
